@@ -78,6 +78,18 @@ class FortranObj:
     def get_ancestors(self):
         return []
 
+    def is_linked_from(self, link_obj) -> bool:
+        """Check if following the ``link_obj`` chain starting at ``link_obj``
+        leads back to this object (or never ends), i.e. whether linking this
+        object to ``link_obj`` would make the links circular"""
+        visited = []
+        while link_obj is not None:
+            if link_obj is self or any(link_obj is obj for obj in visited):
+                return True
+            visited.append(link_obj)
+            link_obj = getattr(link_obj, "link_obj", None)
+        return False
+
     def get_diagnostics(self):
         return []
 
